@@ -19,10 +19,12 @@ def gen_case(rng, i):
         q, cold, period = 3, 5, 1          # the recorded finding: threshold / cold factor below one request
     if i == 1:
         q, cold, period = 1e19, 3, 5       # the recorded finding: token range saturated
+    if i == 2:
+        q, cold, period = 10, 0, 2         # the default cold factor, saturating demand
     base = 1_700_000_000_000 + rng.randrange(0, 1000) * 1000 + rng.pick([0, 0, 1, 250, 499, 500, 999])
     ops = []
     sat = False
-    style = rng.randrange(8) if i > 1 else (0 if i == 0 else 3)
+    style = rng.randrange(8) if i > 2 else (0 if i in (0, 2) else 3)
     style = style if style < 2 else 2 + style % 2
     ceff = 3 if cold <= 1 else cold
     if style == 0 and (q > 20 or (period > 5 and i % 4)):
